@@ -70,7 +70,11 @@ def build_harness(name):
             except OSError:
                 pass
     t0 = time.time()
-    extra = plan.HARNESS_FLAGS.get(base, []) + (["-DSYM_DIGITS=" + flavour] if flavour else [])
+    extra = list(plan.HARNESS_FLAGS.get(base, []))
+    if flavour.endswith("fp"):     # "h_x@24fp": bit-precise IEEE model of the flavour
+        extra += ["-DSYM_FP", "-DSYM_DIGITS=" + flavour[:-2]]
+    elif flavour:
+        extra += ["-DSYM_DIGITS=" + flavour]
     r = sh([CXX] + CXXFLAGS + extra + [src, "-o", exe + ".tmp", "-lz3"] + plan.HARNESS_LIBS.get(base, []))
     if r.returncode != 0:
         return None, time.time() - t0, r.stdout[-4000:]
